@@ -23,8 +23,10 @@ def PInv (cfg : CCfg) (c : Cons) (s : Srv) (l b : Nat) : Prop :=
 /-- the consumer within an incarnation that has yielded the offsets `inc`:
 `fresh`: nothing yielded, nothing held; `going a n b`: it yielded `a .. a+n`, remembers `a+n` as consumed,
 buffers the next `b` messages, all of which the server has; with `next` the server's stored offset is
-not ahead of the buffer; what waits in the channel was yielded by this incarnation. -/
-inductive Phase (cfg : CCfg) (pid : Nat) (strat0 : Strat) (c : Cons) (s : Srv) (inc : List Nat) : Prop
+not ahead of the buffer; what waits in the channel was yielded by this incarnation.
+`rew`: the stored offset may be moved back behind the consumer's back (`Iggy/Sdk/Rewind.lean`); the facts
+that tie the server's stored offset to what this client did (`hC`, `hP`) hold in the world without rewinds. -/
+inductive Phase (rew : Bool) (cfg : CCfg) (pid : Nat) (strat0 : Strat) (c : Cons) (s : Srv) (inc : List Nat) : Prop
   | fresh (hi : inc = []) (hc : c.consumed = []) (hb : c.buffered = []) (hp : c.pending = [])
       (hs : c.stored = []) (hst : c.strat = strat0)
   | going (a n b : Nat) (hi : inc = List.range' a (n + 1)) (hc : c.consumed = [(pid, a + n)])
@@ -33,27 +35,36 @@ inductive Phase (cfg : CCfg) (pid : Nat) (strat0 : Strat) (c : Cons) (s : Srv) (
       (hso : strat0 = .next → ∀ so, s.stored = some so → so ≤ a + n + b)
       (hst : StratOK strat0 c a (a + n) b)
       (hp : ∀ e ∈ c.pending, e.1 = pid ∧ e.2 ∈ inc)
-      (hC : strat0 = .next → ConsumeMode cfg → CInv cfg pid c s (a + n) b)
-      (hP : strat0 = .next → cfg.polling = true → PInv cfg c s (a + n) b)
+      (hC : rew = false → strat0 = .next → ConsumeMode cfg → CInv cfg pid c s (a + n) b)
+      (hP : rew = false → strat0 = .next → cfg.polling = true → PInv cfg c s (a + n) b)
 
-/-- the part of the invariant that reads the trace -/
-structure GInv (cfg : CCfg) (pid : Nat) (strat0 : Strat) (srv0 : Srv) (buf : List PMsg) (s : Srv)
+/-- (also with rewinds; outside polling mode) the offset a poll finds stored on the server is not beyond
+the initial one, or not beyond one the consumer yielded -/
+def PolledBelow (cfg : CCfg) (srv0 : Srv) (pre : List Obs) (x : Obs) : Prop :=
+  ∀ b r, x = .polled b r → cfg.polling = false →
+    resume b ≤ resume srv0.stored ∨ ∃ o ∈ offsOf pre, resume b ≤ o + 1
+
+/-- the part of the invariant that reads the trace (`rew = false`: nobody else moves the stored offset, so
+it is the initial one or one this consumer committed) -/
+structure GInv (rew : Bool) (cfg : CCfg) (pid : Nat) (strat0 : Strat) (srv0 : Srv) (buf : List PMsg) (s : Srv)
     (tr : List Obs) : Prop where
   genuine : ∀ y ∈ yieldsOf tr, y.pid = pid ∧ y.msg = msgAt y.msg.off ∧ y.msg.off < s.len
   yFetched : ∀ o ∈ offsOf tr, o ∈ fetchedOf tr
   bFetched : ∀ m ∈ buf, m.off ∈ fetchedOf tr
-  srvFetched : s.stored = srv0.stored ∨ ∃ o, s.stored = some o ∧ o ∈ fetchedOf tr
-  srvYielded : cfg.polling = false → s.stored = srv0.stored ∨ ∃ o, s.stored = some o ∧ o ∈ offsOf tr
+  srvFetched : rew = false → s.stored = srv0.stored ∨ ∃ o, s.stored = some o ∧ o ∈ fetchedOf tr
+  srvYielded : rew = false → cfg.polling = false → s.stored = srv0.stored ∨ ∃ o, s.stored = some o ∧ o ∈ offsOf tr
+  srvBelow : cfg.polling = false → resume s.stored ≤ resume srv0.stored ∨ ∃ o ∈ offsOf tr, resume s.stored ≤ o + 1
+  polledBelow : Always (PolledBelow cfg srv0) tr
   yieldOK : Always (YieldOK pid strat0) tr
   storeOK : Always StoreOK tr
-  polledOK : Always (PolledOK cfg srv0) tr
+  polledOK : rew = false → Always (PolledOK cfg srv0) tr
   past : ∀ inc ∈ pastIncs tr, ∃ a, offsOf inc = List.range' a (offsOf inc).length
 
-structure Inv (cfg : CCfg) (pid : Nat) (strat0 : Strat) (srv0 : Srv) (sys : Sys) (tr : List Obs) : Prop where
-  phase : Phase cfg pid strat0 sys.1 sys.2 (offsOf (curInc tr))
-  g : GInv cfg pid strat0 srv0 sys.1.buffered sys.2 tr
+structure Inv (rew : Bool) (cfg : CCfg) (pid : Nat) (strat0 : Strat) (srv0 : Srv) (sys : Sys) (tr : List Obs) : Prop where
+  phase : Phase rew cfg pid strat0 sys.1 sys.2 (offsOf (curInc tr))
+  g : GInv rew cfg pid strat0 srv0 sys.1.buffered sys.2 tr
 
-variable {cfg : CCfg} {pid : Nat} {strat0 : Strat} {srv0 : Srv}
+variable {rew : Bool} {cfg : CCfg} {pid : Nat} {strat0 : Strat} {srv0 : Srv}
 
 theorem range'_snoc (a n : Nat) : List.range' a (n + 1) = List.range' a n ++ [a + n] := by
   rw [List.range'_concat]; simp
@@ -67,25 +78,27 @@ theorem curInc_snoc (tr : List Obs) (o : Obs) (h : o ≠ .dropped) : curInc (tr 
 theorem pastIncs_snoc (tr : List Obs) (o : Obs) (h : o ≠ .dropped) : pastIncs (tr ++ [o]) = pastIncs tr :=
   pastIncs_append tr [o] (by simpa using fun e => h e.symm)
 
-theorem GInv.init : GInv cfg pid strat0 srv0 [] srv0 [] where
+theorem GInv.init : GInv rew cfg pid strat0 srv0 [] srv0 [] where
   genuine := by simp
   yFetched := by simp
   bFetched := by simp
-  srvFetched := Or.inl rfl
-  srvYielded := fun _ => Or.inl rfl
+  srvFetched := fun _ => Or.inl rfl
+  srvYielded := fun _ _ => Or.inl rfl
+  srvBelow := fun _ => Or.inl (Nat.le_refl _)
+  polledBelow := Always.nil _
   yieldOK := Always.nil _
   storeOK := Always.nil _
-  polledOK := Always.nil _
+  polledOK := fun _ => Always.nil _
   past := by simp
 
 /-- a yield -/
-theorem GInv.yield {buf buf' : List PMsg} {s : Srv} {tr : List Obs} (h : GInv cfg pid strat0 srv0 buf s tr)
+theorem GInv.yield {buf buf' : List PMsg} {s : Srv} {tr : List Obs} (h : GInv rew cfg pid strat0 srv0 buf s tr)
     (y : Yield) (h1 : y.pid = pid) (h2 : y.msg = msgAt y.msg.off) (h3 : y.msg.off < s.len)
     (h4 : y.msg.off ∈ fetchedOf tr) (hb : ∀ m ∈ buf', m.off ∈ fetchedOf tr)
     (h5 : match lastYield tr with
       | some l => y.msg.off = l + 1
       | none => ∃ pre' b r, tr = pre' ++ [.polled b r] ∧ y.msg.off = firstOff strat0 b) :
-    GInv cfg pid strat0 srv0 buf' s (tr ++ [.yield y]) where
+    GInv rew cfg pid strat0 srv0 buf' s (tr ++ [.yield y]) where
   genuine := by
     intro z hz
     simp only [yieldsOf_append, yieldsOf_cons_yield, yieldsOf_nil, List.mem_append, List.mem_singleton] at hz
@@ -102,42 +115,50 @@ theorem GInv.yield {buf buf' : List PMsg} {s : Srv} {tr : List Obs} (h : GInv cf
   bFetched := by simpa using hb
   srvFetched := by simpa using h.srvFetched
   srvYielded := by
-    intro hp
-    rcases h.srvYielded hp with e | ⟨o, e, ho⟩
+    intro hrw hp
+    rcases h.srvYielded hrw hp with e | ⟨o, e, ho⟩
     · exact Or.inl e
     · exact Or.inr ⟨o, e, by simp [ho]⟩
+  srvBelow := by
+    intro hp
+    rcases h.srvBelow hp with e | ⟨o, ho, e⟩
+    · exact Or.inl e
+    · exact Or.inr ⟨o, by simp [ho], e⟩
+  polledBelow := h.polledBelow.append (Always.one (by intro b r hz; simp at hz))
   yieldOK := h.yieldOK.append (Always.one (by
     intro z hz
     simp only [Obs.yield.injEq] at hz; subst hz
     simp only [List.append_nil]
     exact ⟨h1, h2, h5⟩))
   storeOK := h.storeOK.append (Always.one (by intro o ok hz; simp at hz))
-  polledOK := h.polledOK.append (Always.one (by intro b r hz; simp at hz))
+  polledOK := fun hrw => (h.polledOK hrw).append (Always.one (by intro b r hz; simp at hz))
   past := by rw [pastIncs_snoc _ _ (by simp)]; exact h.past
 
 /-- a store request for a yielded offset reaches the server -/
-theorem GInv.store {buf : List PMsg} {s : Srv} {tr : List Obs} (h : GInv cfg pid strat0 srv0 buf s tr)
+theorem GInv.store {buf : List PMsg} {s : Srv} {tr : List Obs} (h : GInv rew cfg pid strat0 srv0 buf s tr)
     (o : Nat) (ho : o ∈ offsOf tr) :
-    GInv cfg pid strat0 srv0 buf { s with stored := some o } (tr ++ [.store o true]) where
+    GInv rew cfg pid strat0 srv0 buf { s with stored := some o } (tr ++ [.store o true]) where
   genuine := by simpa using h.genuine
   yFetched := by simpa using h.yFetched
   bFetched := by simpa using h.bFetched
-  srvFetched := Or.inr ⟨o, rfl, by simpa using h.yFetched o ho⟩
-  srvYielded := fun _ => Or.inr ⟨o, rfl, by simpa using ho⟩
+  srvFetched := fun _ => Or.inr ⟨o, rfl, by simpa using h.yFetched o ho⟩
+  srvYielded := fun _ _ => Or.inr ⟨o, rfl, by simpa using ho⟩
+  srvBelow := fun _ => Or.inr ⟨o, by simpa using ho, by simp [resume]⟩
+  polledBelow := h.polledBelow.append (Always.one (by intro b r hz; simp at hz))
   yieldOK := h.yieldOK.append (Always.one (by intro z hz; simp at hz))
   storeOK := h.storeOK.append (Always.one (by
     intro o' ok hz
     simp only [Obs.store.injEq] at hz
     obtain ⟨rfl, rfl⟩ := hz
     exact ⟨rfl, by simpa using ho⟩))
-  polledOK := h.polledOK.append (Always.one (by intro b r hz; simp at hz))
+  polledOK := fun hrw => (h.polledOK hrw).append (Always.one (by intro b r hz; simp at hz))
   past := by rw [pastIncs_snoc _ _ (by simp)]; exact h.past
 
 /-- a poll reaches the server; with auto-commit the server stores the last offset it returns -/
-theorem GInv.polled {buf : List PMsg} {s s' : Srv} {tr : List Obs} (h : GInv cfg pid strat0 srv0 buf s tr)
+theorem GInv.polled {buf : List PMsg} {s s' : Srv} {tr : List Obs} (h : GInv rew cfg pid strat0 srv0 buf s tr)
     (r : List PMsg) (hlen : s'.len = s.len)
     (hst : s'.stored = s.stored ∨ (cfg.polling = true ∧ ∃ m ∈ r, s'.stored = some m.off)) :
-    GInv cfg pid strat0 srv0 buf s' (tr ++ [.polled s.stored r]) where
+    GInv rew cfg pid strat0 srv0 buf s' (tr ++ [.polled s.stored r]) where
   genuine := by simpa [hlen] using h.genuine
   yFetched := by
     intro o ho
@@ -148,51 +169,63 @@ theorem GInv.polled {buf : List PMsg} {s s' : Srv} {tr : List Obs} (h : GInv cfg
     have := h.bFetched m hm
     simp [this]
   srvFetched := by
+    intro hrw
     rcases hst with e | ⟨_, m, hm, e⟩
     · rw [e]
-      rcases h.srvFetched with e' | ⟨o, e', ho⟩
+      rcases h.srvFetched hrw with e' | ⟨o, e', ho⟩
       · exact Or.inl e'
       · exact Or.inr ⟨o, e', by simp [ho]⟩
     · exact Or.inr ⟨m.off, e, by simp; exact Or.inr ⟨m, hm, rfl⟩⟩
   srvYielded := by
+    intro hrw hp
+    rcases hst with e | ⟨hp', _⟩
+    · rw [e]; simpa using h.srvYielded hrw hp
+    · rw [hp] at hp'; cases hp'
+  srvBelow := by
     intro hp
     rcases hst with e | ⟨hp', _⟩
-    · rw [e]; simpa using h.srvYielded hp
+    · rw [e]; simpa using h.srvBelow hp
     · rw [hp] at hp'; cases hp'
+  polledBelow := h.polledBelow.append (Always.one (by
+    intro b r' hz hp
+    simp only [Obs.polled.injEq] at hz
+    obtain ⟨rfl, rfl⟩ := hz
+    simp only [List.append_nil]
+    exact h.srvBelow hp))
   yieldOK := h.yieldOK.append (Always.one (by intro z hz; simp at hz))
   storeOK := h.storeOK.append (Always.one (by intro o ok hz; simp at hz))
-  polledOK := h.polledOK.append (Always.one (by
+  polledOK := fun hrw => (h.polledOK hrw).append (Always.one (by
     intro b r' hz
     simp only [Obs.polled.injEq] at hz
     obtain ⟨rfl, rfl⟩ := hz
     simp only [List.append_nil]
     refine ⟨?_, fun hp => ?_⟩
-    · rcases h.srvFetched with e | ⟨o, e, ho⟩
+    · rcases h.srvFetched hrw with e | ⟨o, e, ho⟩
       · exact Or.inl e
       · exact Or.inr ⟨o, ho, e⟩
-    · rcases h.srvYielded hp with e | ⟨o, e, ho⟩
+    · rcases h.srvYielded hrw hp with e | ⟨o, e, ho⟩
       · exact Or.inl e
       · exact Or.inr ⟨o, ho, e⟩))
   past := by rw [pastIncs_snoc _ _ (by simp)]; exact h.past
 
-theorem GInv.len {buf : List PMsg} {s : Srv} {tr : List Obs} (h : GInv cfg pid strat0 srv0 buf s tr) (k : Nat) :
-    GInv cfg pid strat0 srv0 buf { s with len := s.len + k } tr := by
+theorem GInv.len {buf : List PMsg} {s : Srv} {tr : List Obs} (h : GInv rew cfg pid strat0 srv0 buf s tr) (k : Nat) :
+    GInv rew cfg pid strat0 srv0 buf { s with len := s.len + k } tr := by
   have hgen : ∀ y ∈ yieldsOf tr, y.pid = pid ∧ y.msg = msgAt y.msg.off ∧ y.msg.off < s.len + k := by
     intro y hy
     obtain ⟨h1, h2, h3⟩ := h.genuine y hy
     exact ⟨h1, h2, by omega⟩
   exact { h with genuine := hgen }
 
-theorem GInv.buf {buf buf' : List PMsg} {s : Srv} {tr : List Obs} (h : GInv cfg pid strat0 srv0 buf s tr)
-    (hb : ∀ m ∈ buf', m.off ∈ fetchedOf tr) : GInv cfg pid strat0 srv0 buf' s tr :=
+theorem GInv.buf {buf buf' : List PMsg} {s : Srv} {tr : List Obs} (h : GInv rew cfg pid strat0 srv0 buf s tr)
+    (hb : ∀ m ∈ buf', m.off ∈ fetchedOf tr) : GInv rew cfg pid strat0 srv0 buf' s tr :=
   { h with bFetched := hb }
 
-theorem Inv.init : Inv cfg pid strat0 srv0 (Cons.new strat0, srv0) [] where
+theorem Inv.init : Inv rew cfg pid strat0 srv0 (Cons.new strat0, srv0) [] where
   phase := .fresh rfl rfl rfl rfl rfl rfl
   g := GInv.init
 
-theorem Inv.append (h : Inv cfg pid strat0 srv0 sys tr) (k : Nat) :
-    Inv cfg pid strat0 srv0 (step cfg pid strat0 sys (.append k)).1 (tr ++ (step cfg pid strat0 sys (.append k)).2) := by
+theorem Inv.append (h : Inv rew cfg pid strat0 srv0 sys tr) (k : Nat) :
+    Inv rew cfg pid strat0 srv0 (step cfg pid strat0 sys (.append k)).1 (tr ++ (step cfg pid strat0 sys (.append k)).2) := by
   obtain ⟨c, s⟩ := sys
   simp only [step, List.append_nil]
   refine ⟨?_, h.g.len k⟩
@@ -201,8 +234,8 @@ theorem Inv.append (h : Inv cfg pid strat0 srv0 sys tr) (k : Nat) :
   | going a n b hi hc hcp hb hlen hso hst hp hC hP =>
     exact .going a n b hi hc hcp hb (by simp at hlen ⊢; omega) hso hst hp hC hP
 
-theorem Inv.drop (h : Inv cfg pid strat0 srv0 sys tr) :
-    Inv cfg pid strat0 srv0 (step cfg pid strat0 sys .drop).1 (tr ++ (step cfg pid strat0 sys .drop).2) := by
+theorem Inv.drop (h : Inv rew cfg pid strat0 srv0 sys tr) :
+    Inv rew cfg pid strat0 srv0 (step cfg pid strat0 sys .drop).1 (tr ++ (step cfg pid strat0 sys .drop).2) := by
   obtain ⟨c, s⟩ := sys
   simp only [step]
   by_cases hp : c.pending.isEmpty
@@ -217,9 +250,11 @@ theorem Inv.drop (h : Inv cfg pid strat0 srv0 sys tr) :
         bFetched := by simp [Cons.new]
         srvFetched := by simpa using hg.srvFetched
         srvYielded := by simpa using hg.srvYielded
+        srvBelow := by simpa using hg.srvBelow
+        polledBelow := hg.polledBelow.append (Always.one (by intro b r hy; simp at hy))
         yieldOK := hg.yieldOK.append (Always.one (by intro y hy; simp at hy))
         storeOK := hg.storeOK.append (Always.one (by intro y ok hy; simp at hy))
-        polledOK := hg.polledOK.append (Always.one (by intro b r hy; simp at hy))
+        polledOK := fun hrw => (hg.polledOK hrw).append (Always.one (by intro b r hy; simp at hy))
         past := by
           intro inc hinc
           simp only [pastIncs_snoc_dropped, List.mem_append, List.mem_singleton] at hinc
